@@ -80,7 +80,13 @@ def run_whole(ctx, pid, n, mons=None, force=None, nontrivial=None, machine_repla
                 hterms.append(hc["term"])
                 howners.append((r, hc))
             elif "inexpressible" in hc:
-                disagreements.append({"what": f"history machine, seed {r['seed']}: {hc['inexpressible'][-400:]}", "seed": r["seed"], "spec": r["spec"]})
+                msg = hc["inexpressible"][-400:]
+                hit = next((frag for frag in INEXPRESSIBLE_IS_VIOLATION.get(pid, []) if frag in msg), None)
+                if hit:
+                    # the reason the recorded run cannot be a run of the history machine IS the property's statement failing on that run
+                    violations.append({"key": f"{pid}/history-source", "what": msg.strip().splitlines()[-1][-380:], "seed": r["seed"], "spec": r["spec"], "replay_fn": "history-source"})
+                else:
+                    disagreements.append({"what": f"history machine, seed {r['seed']}: {msg}", "seed": r["seed"], "spec": r["spec"]})
             else:
                 dist["hist-skip:" + hc.get("skip", "?")[:30]] += 1
         if len(samples) < 4 and r["sig"] is not None:
@@ -126,11 +132,21 @@ def run_whole(ctx, pid, n, mons=None, force=None, nontrivial=None, machine_repla
             "distribution": dict(dist), "notes": {"objective_evaluations_observed": evals, "harness_crashes": crashes, "machine_traces_replayed": replayed, "history_traces_replayed": hreplayed, "generations_rebuilt_in_coq": hgens}, "_results": results}
 
 
+# reasons for which a recorded run is not a run of the history machine that are, word for word, a violation of the property
+INEXPRESSIBLE_IS_VIOLATION = {"C11": ["neither belonged to the preceding generation", "no engine iteration of that deme accounts for it"]}
+
+
 def replay_whole(ctx, data, pid):
     """re-run exactly the configuration of a replay file and apply the property's monitor"""
     from .. import monitors, rec
     spec = data["spec"]
     r = rec.run_spec(spec)
+    if data.get("replay_fn") == "history-source":
+        from .. import histmachine
+        hc = histmachine.case_of(r)
+        if "inexpressible" in hc:
+            return False, f"{pid} seed {spec.get('seed')}: {hc['inexpressible'].strip().splitlines()[-1][-380:]}"
+        return True, f"{pid} seed {spec.get('seed')}: the recorded run is a run of the history machine"
     vs = monitors.MONITORS[pid](r)
     vs = [v for v in vs if v["key"] == data.get("key")] or vs
     if vs:
